@@ -87,6 +87,15 @@ class Prop:
             bits = ''.join(rng.choice('01') for _ in range(L)) or '-'
             ops.append('armor %s' % bits)
             meta.append(bits)
+        # every armoring character as the LAST one (and as the last two) of payloads of whole characters, also where
+        # the bit length is a multiple of 8 and of 24
+        for L in (6, 12, 18, 24, 48, 72, 96, 120, 168, 240, 1008):
+            for v in range(64):
+                head = ''.join(rng.choice('01') for _ in range(L - 6))
+                if L >= 12 and v % 3 == 0:
+                    head = head[:-6] + gen.bits_of_int(v, 6)
+                ops.append('armor %s' % (head + gen.bits_of_int(v, 6)))
+                meta.append(head + gen.bits_of_int(v, 6))
         outs = ctx.corr(ops, impl.step, 'armor', nontrivial=lambda l, o: not o.endswith(' 0'))
         for bits, o in zip(meta, outs):
             b = '' if bits == '-' else bits
@@ -114,6 +123,29 @@ class Prop:
                     chan = rng.choice([b'A', b'B'])
                     ops.append('encode_msg %s %s %s %s' % (cname, talker.hex(), chan.hex(), kw))
                     meta.append((cname, talker, kw))
+        # ... and content that is LONGER than its field (binary data / text given by the caller: cut to the field,
+        # never a message of more than the maximal length)
+        import re as _re
+        for cname in sorted(gen.concrete_classes()):
+            fl = [f for f in gen.fields_of(gen.concrete_classes()[cname]) if f[0] in ('data', 'text') and f[2] in (bytes, str)]
+            if not fl:
+                continue
+            name, w, d_type = fl[-1][0], fl[-1][1], fl[-1][2]
+            o = impl.step('frombits_cls %s %s' % (cname, gen.payload_bits(rng, cname)))
+            if o.startswith('ERR'):
+                continue
+            kw = o.split('|', 1)[1]
+            unit = 8 if d_type is bytes else 6
+            for n in sorted({w // unit + 1, w // unit + 7, 2 * (w // unit), 399, 400, 520}):
+                if d_type is bytes:
+                    val = 'y:' + bytes(rng.getrandbits(8) | 1 for _ in range(n)).hex()
+                else:
+                    val = 's:' + ''.join(rng.choice('ABCDEFGHIJKLMNOPQRSTUVWXYZ0123456789') for _ in range(n)).encode().hex()
+                kw2, cnt = _re.subn(r'(^|;)%s=[^;]*' % name, lambda m_: '%s%s=%s' % (m_.group(1), name, val), kw)
+                if cnt != 1:
+                    continue
+                ops.append('encode_msg %s %s %s %s' % (cname, b'AIVDM'.hex(), b'A'.hex(), kw2))
+                meta.append((cname, b'AIVDM', kw2))
         outs = ctx.corr(ops, impl.step, 'encode_msg')
         for (cname, talker, kw), o in zip(meta, outs):
             inp = {'cmd': 'encode_msg', 'class': cname, 'kwargs': kw, 'talker': talker.decode()}
